@@ -135,18 +135,23 @@ where
         block: &Loop,
         pop_stack: bool,
     ) -> Result<(), ExecutionError> {
+        // if we are exiting a loop after at least one iteration, the value at the top of the stack
+        // must be ZERO: ONE would have kept us in the loop and anything else is not a valid
+        // condition.
+        if pop_stack {
+            let condition = self.stack.peek();
+            if condition != ZERO {
+                return Err(ExecutionError::NotBinaryValue(condition));
+            }
+        }
+
         // this appends a row with END operation to the decoder trace.
         self.decoder.end_control_block(block.hash().into());
 
-        // if we are exiting a loop, we also need to pop the top value off the stack (and this
-        // value must be ZERO - otherwise, we should have stayed in the loop). but, if we never
-        // entered the loop in the first place, the stack would have been popped when the LOOP
-        // operation was executed.
+        // if we are exiting a loop, we also need to pop the top value off the stack. but, if we
+        // never entered the loop in the first place, the stack would have been popped when the
+        // LOOP operation was executed.
         if pop_stack {
-            // make sure the condition at the top of the stack is set to ZERO
-            #[cfg(debug_assertions)]
-            debug_assert_eq!(ZERO, self.stack.peek());
-
             self.execute_op(Operation::Drop)
         } else {
             self.execute_op(Operation::Noop)
